@@ -6,6 +6,8 @@ buffers, queues or scheduling; -1 rows and no-op write-back at the index that wa
 """
 from __future__ import annotations
 
+import ast
+
 from .. import flow
 from .. import terms as T
 from ..asyncflow import AsyncView
@@ -265,6 +267,25 @@ def compiled_part(chk: Check, model, cv: CompiledView):
     plain = ret
     for c in conds:
         plain = T.assume(plain, c, False)
+    # the record lives in graph_state.aux next to whatever else is kept there (the RL wrappers' log / normalisation / scaling entries, user
+    # data): the compiled runtime never installs a fresh aux mapping - it merges (`aux.copy({...})`, replace_aux) or replaces a leaf (tree_at)
+    n_aux = 0
+    for q_, f_ in model.functions.items():
+        if f_.module not in ("partition_runner", "graph", "base") or f_.parent is not None and f_.module == "base":
+            continue
+        for n_ in ast.walk(f_.node):
+            if isinstance(n_, ast.Call) and isinstance(n_.func, ast.Attribute) and n_.func.attr == "replace" and any(k.arg == "aux" for k in n_.keywords):
+                if any(n_ is x for g_ in ast.walk(f_.node) if isinstance(g_, (ast.FunctionDef, ast.Lambda)) and g_ is not f_.node for x in ast.walk(g_)):
+                    continue  # (reported for the nested function itself)
+                n_aux += 1
+                v_ = [k.value for k in n_.keywords if k.arg == "aux"][0]
+                if isinstance(v_, ast.Name):
+                    bs_ = [a for a in ast.walk(f_.node) if isinstance(a, ast.Assign) and len(a.targets) == 1 and isinstance(a.targets[0], ast.Name) and a.targets[0].id == v_.id]
+                    v_ = bs_[0].value if len(bs_) == 1 else v_
+                merged = isinstance(v_, ast.Call) and isinstance(v_.func, ast.Attribute) and v_.func.attr == "copy" and isinstance(v_.func.value, ast.Attribute) and v_.func.value.attr == "aux"
+                chk.add("C13.noninterference", f"aux is merged, never replaced wholesale: {q_}", merged, f"{q_} stores aux = {ast.unparse(v_)[:100]}: every other aux entry is dropped "
+                        "(expected <state>.aux.copy({...}))", chk.loc(f_, n_))
+    chk.floor("C13.noninterference", "writes of graph_state.aux", n_aux, 2)
     # with a record, the result is the same updated graph state with only the record's output leaf replaced
     rec_on = ret
     for c in conds:
@@ -386,5 +407,22 @@ def run(chk: Check, model):
     chk.rule("C13.truncate", "truncation: step records stop at max_records; message records are filtered by the last recorded step")
     view = AsyncView(model)
     async_part(chk, view)
+    # a node's record is assembled once per episode, steps and input message records together: the message records are cut at the last step of
+    # the steps they are stored with, so both parts are built under the same "not built yet" discipline (rebuilding one while the other stays
+    # cached leaves steps whose messages are missing)
+    rgr = view.results["node.get_record"]
+    sts = {}
+    for e in rgr.events:
+        if e.kind == "store_attr" and e.name == "self._record" and e.term[0] == "replace":
+            for k, _v in e.term[2]:
+                if k in ("steps", "inputs"):
+                    sts.setdefault(k, []).append(e)
+    okc = all(len(sts.get(k, [])) == 1 for k in ("steps", "inputs"))
+    if okc:
+        once = {k: flow.implies(sts[k][0].guard, T.eq(T.mk_attr(S("self._record"), k), T.NONE, numeric=False)) for k in ("steps", "inputs")}
+        okc = once["steps"] == once["inputs"] and sts["steps"][0].idx < sts["inputs"][0].idx
+    chk.add("C13.truncate", "steps and input message records are assembled together (both once, or both on every request)", bool(okc),
+            "node.get_record builds `steps` under " + (T.show(sts["steps"][0].guard)[:80] if sts.get("steps") else "?") + " and `inputs` under " +
+            (T.show(sts["inputs"][0].guard)[:80] if sts.get("inputs") else "?"), chk.loc(view.fi("node.get_record")))
     cv = CompiledView(model)
     compiled_part(chk, model, cv)
